@@ -422,7 +422,7 @@ class Schema(dict, metaclass=LogicalMeta):
             )
         field = self.__parser__.get_field(key)
         if not field:
-            return super().pop(key)
+            return super().pop(key, *(() if unprovided(default) else (default,)))
         if field.immutable:
             raise exc.DeleteError(
                 f"{self.__name__}: Attempt to pop immutable item: [{repr(key)}]"
